@@ -58,6 +58,12 @@ def sweep_cases(ctx: core.Ctx, rnd: random.Random, gens: list, repeats: int, *, 
             add(fname, sname, "bomcode", by_name["B1"], {}, "bom:" + fname)
         add(fname, sname, "code", by_name["B1"], {"template": "literal"}, "literal-template:" + fname, must=False)
         add(fname, sname, "ownheader", by_name["B9"], {"template": "literal"}, "literal-template:" + fname, must=False)
+    # only contributors requested, under a template that renders none: a header that declares nothing would not be found
+    # again (the tool may refuse - every time, without touching the file)
+    if "B3" in by_name:
+        for fname, sname in (("sample.py", "python"), ("sample.bat", "bat"), ("sample.c", "c"), ("sample.html", "html")):
+            for kind in ("code", "comment", "empty"):
+                add(fname, sname, kind, by_name["B3"], {"template": "nocon"}, "nothing-rendered:" + fname, must=False)
     # files longer than the 4 KiB window, in each line-ending convention (add() cycles LF, CRLF, CR)
     for fname, sname in (("sample.py", "python"), ("sample.c", "c"), ("sample.html", "html")):
         for _ in range(3):
@@ -95,6 +101,10 @@ def sweep_cases(ctx: core.Ctx, rnd: random.Random, gens: list, repeats: int, *, 
             if sname is not None:
                 for kind in ("ownheader", "owncon", "foreign"):
                     add(fname, sname, kind, by_name["B9"], {"dot": "force"}, "rep:" + fname)
+            if fname.endswith("unknownext"):
+                # ... and --fallback-dot-license on a file of unknown type whose text carries tags (read by the linter as they are)
+                for kind in ("ownheader", "owncon"):
+                    add(fname, "python", kind, by_name["B9"], {"dot": "fallback"}, "rep:" + fname, unrec=True)
             for tmpl in ("full", "nocon"):
                 add(fname, sname, "code", by_name["B9"], {"template": tmpl, **({"dot": "fallback"} if fname.endswith("unknownext") else {})},
                     "rep:" + fname, unrec=fname.endswith("unknownext"))
